@@ -541,6 +541,7 @@ class EventBus:
             # forwarding an event from inside its own handler must not make it its own parent
             if current_event is not None and current_event.event_id != event.event_id:
                 event.event_parent_id = current_event.event_id
+                event._event_parent_ref = weakref.ref(current_event)  # pyright: ignore[reportPrivateUsage]
 
         # Track child events - if we're inside a handler, add this event to the handler's event_children list
         # Only track if this is a NEW event (not forwarding an existing event)
@@ -1030,7 +1031,10 @@ class EventBus:
                     break
 
             if not parent_event:
-                break
+                # an in-flight parent may have been evicted from a bounded history: it must still learn about its children
+                parent_event = current.event_parent
+                if parent_event is None or parent_event.event_id != current.event_parent_id:
+                    break
 
             # Check if parent can be marked complete
             if parent_event.event_completed_signal and not parent_event.event_completed_signal.is_set():
